@@ -173,6 +173,7 @@ def gen_cases(tier, seed):
     for n in (1, 2, 5, 30):
         for api, dtype in (("gund", "int16"), ("gund", "float32"), ("mktrend_nd", "int16")):
             add({"op": "allnodata", "api": api, "dtype": dtype, "xi": [-9999] * n, "ndv": -9999.0})
+            add({"op": "allnodata", "api": api, "dtype": dtype, "xi": [0] * n, "ndv": 0.0})       # the falsy nodata value
     return cases
 
 
